@@ -79,6 +79,7 @@ def nthAmount (c : Char) : Option Nat :=
 def opsOf (cs : List Char) : List Iter.IterOp :=
   cs.map (fun c =>
     if c == 'n' then .next else if c == 'b' then .nextBack
+    else if c == 'h' then .len        -- `size_hint()`: the comparer checks lower ≤ remaining ≤ upper
     else if c == 'c' then .count else if c == 'a' then .last
     else match nthAmount c with
       | some k => if c.isUpper then .nthBack k else .nth k
@@ -102,9 +103,21 @@ def fwdOpsOf (cs : List Char) : List Iter.FwdOp :=
 
 /-- model (index-driven iterator over the model's `get`) | specification (deque over `abs`) -/
 def fwdHist (getO : Nat → M (Option Nat)) (abs : List Nat) (hist : String) : String :=
-  let ops := fwdOpsOf hist.toList
-  " ".intercalate ((Iter.fwdRun getO abs.length 0 ops).map Out.render) ++ "|" ++
-    " ".intercalate ((Iter.specRun abs (ops.map Iter.FwdOp.toIterOp)).map Out.render)
+  -- `h` (`size_hint()`, not overridden by the crate: the standard default) is answered with the number of
+  -- remaining elements on both sides; the comparer checks `lower ≤ remaining ≤ upper` on the real answer
+  let rec go : List Char → Nat → List Nat → List String → List String → List String × List String
+    | [], _, _, ms, ss => (ms.reverse, ss.reverse)
+    | c :: cs, i, rem, ms, ss =>
+      if c == 'h' then go cs i rem (s!"V:{rem.length}" :: ms) (s!"V:{rem.length}" :: ss)
+      else
+        match fwdOpsOf [c] with
+        | [op] =>
+          let r := Iter.fwdStep getO abs.length i op
+          let q := Iter.specStep rem op.toIterOp
+          go cs r.1 q.1 (r.2.render :: ms) (q.2.render :: ss)
+        | _ => go cs i rem ms ss
+  let (ms, ss) := go hist.toList 0 abs [] []
+  " ".intercalate ms ++ "|" ++ " ".intercalate ss
 
 /-- drain a position iterator (until its first `None`), then call `next` three more times -/
 def posAfter (bit : Bool) (b : BV.BitVector) (fuel : Nat) (it : BV.PosIter) : String :=
@@ -655,6 +668,38 @@ def handleU (fn : String) (args : List String) : String :=
     (match Utils.stablePartitionOf2 W vals.toArray shift with
      | .ok r => listS r.toList | .error f => "F:" ++ f.tag) ++ "|" ++
     listS (Spec.stablePart (fun x => (x >>> shift) % 2) 2 vals)
+  | "part4c" | "part2c" =>
+    let D := if fn == "part4c" then 4 else 2
+    let shift := a 1; let nc := a 2
+    let codes : Array Huff.PrefixCode :=
+      ((List.range nc).map (fun i => ({ content := a (3 + 2 * i), len := a (4 + 2 * i) } : Huff.PrefixCode))).toArray
+    let vals := (args.drop (3 + 2 * nc)).map nat!
+    let key (x : Nat) : Nat :=
+      let cd := codes.getD x {}
+      if cd.len ≤ shift then D else (cd.content >>> (cd.len - shift)) % D
+    (match Huff.partitionWithCodes D vals.toArray shift codes with
+     | .ok r => listS r.toList | .error f => "F:" ++ f.tag) ++ "|" ++
+    (if vals.all (· < nc) then listS (Spec.stablePart key (D + 1) vals) else "F:indexPanic")
+  | "posraw" =>
+    let bit := a 0 == 1; let nb := a 1
+    let ws := (args.drop 3).map nat!
+    let b : BV.BitVector := { data := ws.toArray, nBits := nb, nOnes := 0 }
+    let start := if args.getD 2 "-" == "-" then 0 else a 2
+    let it0 := if args.getD 2 "-" == "-" then BV.PosIter.new else BV.PosIter.withPos bit b start
+    let rec drain : Nat → BV.PosIter → List Nat → List Nat × BV.PosIter
+      | 0, it, acc => (acc.reverse, it)
+      | f + 1, it, acc =>
+        match BV.PosIter.next bit b it with
+        | (some p, it) => drain f it (p :: acc)
+        | (none, it) => (acc.reverse, it)
+    let (ps, it1) := drain (64 * ws.length + 2) it0 []
+    let (x1, it2) := BV.PosIter.next bit b it1
+    let (x2, it3) := BV.PosIter.next bit b it2
+    let (x3, _) := BV.PosIter.next bit b it3
+    let o (x : Option Nat) := match x with | some p => s!"S:{p}" | none => "N"
+    let lim := min nb (64 * ws.length)
+    let specPs := (List.range lim).filter (fun p => p ≥ start && (Nat.testBit (ws.getD (p / 64) 0) (p % 64) == bit))
+    s!"{listS ps} {o x1} {o x2} {o x3}|{listS specPs} N N N"
   | "text_remap" =>
     let vals := args.map nat!
     let (r, d) := Utils.textRemap vals.toArray
